@@ -60,7 +60,12 @@ class Encoded:
     def __init__(self, payload, kw):
         self.payload, self.kw = payload, kw
 
-    def encode(self):
+    def encode(self, encoding='utf-8', errors='strict'):
+        # what str.encode does: UTF-8 / strict are its defaults, so spelling them out is the same call; anything else is another encoding of
+        # the file (non-ASCII text would be written differently or refused) and is kept apart
+        import codecs
+        if codecs.lookup(encoding).name != 'utf-8' or errors != 'strict':
+            return ('BYTES-OF', self, encoding, errors)
         return ('BYTES-OF', self)
 
 
